@@ -1060,17 +1060,12 @@ impl Discovery {
   pub fn handle_subscription_reader(&mut self, read_history: Option<GuidPrefix>) {
     let drds: Vec<Sample<DiscoveredReaderData, GUID>> =
       match self.dcps_subscription.reader.into_iterator() {
+        // Note: This takes the samples out of the reader, so every one of them must
+        // be processed here, also when this call was triggered by (re)discovery of
+        // one particular participant. Dropping the samples of the other
+        // participants would lose their endpoints for good.
         Ok(ds) => ds
           .map(|d| d.map_dispose(|g| g.0)) // map_dispose removes Endpoint_GUID wrapper around GUID
-          .filter(|d|
-              // If a participant was specified, we must match its GUID prefix.
-              match (read_history, d) {
-                (None, _) => true, // Not asked to filter by participant
-                (Some(participant_to_update), Sample::Value(drd)) =>
-                  drd.reader_proxy.remote_reader_guid.prefix == participant_to_update,
-                (Some(participant_to_update), Sample::Dispose(guid)) =>
-                  guid.prefix == participant_to_update,
-              })
           .collect(),
         Err(e) => {
           error!("handle_subscription_reader: {e:?}");
@@ -1126,24 +1121,16 @@ impl Discovery {
     } // loop
   }
 
-  pub fn handle_publication_reader(&mut self, read_history: Option<GuidPrefix>) {
+  pub fn handle_publication_reader(&mut self, _read_history: Option<GuidPrefix>) {
     let dwds: Vec<Sample<DiscoveredWriterData, GUID>> =
       match self.dcps_publication.reader.into_iterator() {
         // a lot of cloning here, but we must copy the data out of the
         // reader before we can use self again, as .read() returns references to within
         // a reader and thus self
+        // Note: all the taken samples must be processed, see
+        // handle_subscription_reader.
         Ok(ds) => ds
           .map(|d| d.map_dispose(|g| g.0)) // map_dispose removes Endpoint_GUID wrapper around GUID
-          // If a participant was specified, we must match its GUID prefix.
-          .filter(|d| match (read_history, d) {
-            (None, _) => true, // Not asked to filter by participant
-            (Some(participant_to_update), Sample::Value(dwd)) => {
-              dwd.writer_proxy.remote_writer_guid.prefix == participant_to_update
-            }
-            (Some(participant_to_update), Sample::Dispose(guid)) => {
-              guid.prefix == participant_to_update
-            }
-          })
           .collect(),
         Err(e) => {
           error!("handle_publication_reader: {e:?}");
@@ -1533,20 +1520,13 @@ impl Discovery {
   }
 
   #[cfg(feature = "security")]
-  pub fn handle_secure_subscription_reader(&mut self, read_history: Option<GuidPrefix>) {
+  pub fn handle_secure_subscription_reader(&mut self, _read_history: Option<GuidPrefix>) {
     let sec_subs: Vec<Sample<SubscriptionBuiltinTopicDataSecure, GUID>> =
       match self.dcps_subscriptions_secure.reader.into_iterator() {
+        // Note: all the taken samples must be processed, see
+        // handle_subscription_reader.
         Ok(ds) => ds
           .map(|d| d.map_dispose(|g| g.0)) // map_dispose removes Endpoint_GUID wrapper around GUID
-          .filter(|d|
-              // If a participant was specified, we must match its GUID prefix.
-              match (read_history, d) {
-                (None, _) => true, // Not asked to filter by participant
-                (Some(participant_to_update), Sample::Value(sec_sub)) =>
-                sec_sub.discovered_reader_data.reader_proxy.remote_reader_guid.prefix == participant_to_update,
-                (Some(participant_to_update), Sample::Dispose(guid)) =>
-                  guid.prefix == participant_to_update,
-              })
           .collect(),
         Err(e) => {
           error!("handle_secure_subscription_reader: {e:?}");
@@ -1587,26 +1567,13 @@ impl Discovery {
   }
 
   #[cfg(feature = "security")]
-  pub fn handle_secure_publication_reader(&mut self, read_history: Option<GuidPrefix>) {
+  pub fn handle_secure_publication_reader(&mut self, _read_history: Option<GuidPrefix>) {
     let sec_pubs: Vec<Sample<PublicationBuiltinTopicDataSecure, GUID>> =
       match self.dcps_publications_secure.reader.into_iterator() {
+        // Note: all the taken samples must be processed, see
+        // handle_subscription_reader.
         Ok(ds) => ds
           .map(|d| d.map_dispose(|g| g.0)) // map_dispose removes Endpoint_GUID wrapper around GUID
-          // If a participant was specified, we must match its GUID prefix.
-          .filter(|d| match (read_history, d) {
-            (None, _) => true, // Not asked to filter by participant
-            (Some(participant_to_update), Sample::Value(sec_pub)) => {
-              sec_pub
-                .discovered_writer_data
-                .writer_proxy
-                .remote_writer_guid
-                .prefix
-                == participant_to_update
-            }
-            (Some(participant_to_update), Sample::Dispose(guid)) => {
-              guid.prefix == participant_to_update
-            }
-          })
           .collect(),
         Err(e) => {
           error!("handle_secure_publication_reader: {e:?}");
